@@ -165,6 +165,9 @@ func (pc *secp256k1ProofContext) VerifyPart(dHash []byte, pp module.BTPProofPart
 	if epp.Index < 0 || epp.Index >= len(pc.Validators) {
 		return -1, errors.Errorf("invalid proof part index=%d numValidators=%d", epp.Index, len(pc.Validators))
 	}
+	if epp.Signature == nil {
+		return -1, errors.Errorf("invalid proof part: no signature index=%d", epp.Index)
+	}
 	addr, err := epp.recover(pc.mod, dHash)
 	if err != nil {
 		return -1, err
